@@ -108,11 +108,8 @@ theorem sliceColumn_ok (len count : Nat) (hc : 0 < count) (fill : Bool) (s : Nat
   generalize len % count = extra at *
   have b1 : min s extra + p ≤ min (s + 1) extra + q := by omega
   have b2 : min (s + 1) extra + q ≤ len := by omega
-  rw [usize_ok' _ (by omega) (by omega)]
-  simp only [ok_bind]
-  rw [usize_ok' _ (by omega) (by omega)]
-  simp only [ok_bind, Int.toNat_natCast]
-  rw [if_pos ⟨b1, b2⟩]
+  simp only []
+  rw [if_pos ⟨by omega, by omega⟩, if_pos ⟨b1, b2⟩]
   exact ⟨_, rfl⟩
 
 theorem mapM_exists_ok {β γ : Type} (f : β → Chk γ) (l : List β) (h : ∀ b ∈ l, ∃ c, f b = .ok c) :
